@@ -6,7 +6,7 @@
    the client that popped it is stored inside it, so "the poll that was handed that client's offer"
    is the entry holding the client. Proofs: Proofs/BrokerProofs.v, BrokerSteps.v, BrokerThms.v. *)
 From Coq Require Import List NArith ZArith Bool.
-From Snow Require Import Model.Broker Proofs.BrokerProofs Proofs.BrokerSteps Proofs.BrokerThms.
+From Snow Require Import Model.Broker Proofs.BrokerProofs Proofs.BrokerSteps Proofs.BrokerThms Proofs.BrokerHist.
 Import ListNotations.
 Open Scope N_scope.
 
@@ -18,6 +18,22 @@ Theorem C02_answer_routing : forall v br s p e c a,
   (exists aid, In (aid, e_sid e, a) (answer_log s)) /\
   (forall m, e_w e = W_Done (PMatch m) -> m_offer m = c_offer c).
 Proof. exact answer_routing. Qed.
+
+(* The same over histories, at full strength: the answer a client is given was carried by an answer request OF THE
+   HISTORY (label L_Answer sid a at some position), made under the session id of the poll holding this client, and
+   at the moment that request was made its session-id lookup resolved to this very poll (entry p) - not merely to
+   some poll registered under an equal id at some other time. *)
+Theorem C02_answer_resolved_to_this_poll : forall v br ls s p e c a,
+  run v (init br) ls = Some s -> nth_error (entries s) p = Some e -> e_cl e = Some c -> client_answered c a ->
+  exists pre post s1, ls = pre ++ L_Answer (e_sid e) a :: post /\ run v (init br) pre = Some s1 /\
+                      lookup (e_sid e) (idmap s1) = Some p.
+Proof. exact answer_resolved_to_this_poll. Qed.
+
+(* Each proxy poll receives at most one offer: in any history (from any state) no poll occurs in two accepted client
+   matches - once popped, a poll never returns to the pool (C03_left_pool_forever). *)
+Theorem C02_poll_gets_at_most_one_offer : forall v s0 pre mid post n1 f1 o1 n2 f2 o2 p q s,
+  run v s0 (pre ++ L_Client n1 f1 o1 (Some p) :: mid ++ L_Client n2 f2 o2 (Some q) :: post) = Some s -> p <> q.
+Proof. exact poll_gets_at_most_one_offer. Qed.
 
 (* Each offer is handed to at most one poll (a client sits in at most one entry); each poll holds at
    most one client and returns at most one response by construction of [entry]. *)
@@ -136,3 +152,15 @@ Proof.
   - eexists; eexists; eexists; eexists. vm_compute. repeat split. apply le_n.
   - eexists; eexists. vm_compute. repeat split.
 Qed.
+
+(* non-vacuity of the history statements: the run of C02_example has the shape required by
+   C02_poll_gets_at_most_one_offer (two accepted matches, polls 0 and 1) and contains the answer requests that
+   C02_answer_resolved_to_this_poll finds *)
+Example C02_history_example :
+  [L_Poll 1 NatUnrestricted 1 0; L_Poll 2 NatRestricted 1 3;
+   L_Client NatRestricted (Some 7) 100 (Some 0%nat); L_Client NatUnrestricted (Some 8) 101 (Some 1%nat);
+   L_RvOffer 1; L_RvOffer 0; L_RvForward 0; L_RvForward 1; L_Answer 2 502; L_Answer 1 501] =
+  [L_Poll 1 NatUnrestricted 1 0; L_Poll 2 NatRestricted 1 3] ++ L_Client NatRestricted (Some 7) 100 (Some 0%nat) ::
+  [] ++ L_Client NatUnrestricted (Some 8) 101 (Some 1%nat) ::
+  [L_RvOffer 1; L_RvOffer 0; L_RvForward 0; L_RvForward 1; L_Answer 2 502; L_Answer 1 501].
+Proof. reflexivity. Qed.
